@@ -382,6 +382,21 @@ func gen(g *core.G) {
 		g.Emit("trans " + s(gc.A) + " " + s(gc.B) + " " + s(lg.Narrow(gc.B)))
 	}
 
+	// ---- (2'') types given as TEXT in every parameter form of the creators: a text and the separately built type it denotes
+	// are equal and accept each other; texts against texts --------------------------------------------------------------------
+	spells := lg.Spellings(px.CurrentContext(), 300*g.Scale)
+	for i, sc := range spells {
+		ta := lat.Txt(sc.Text).String()
+		g.Emit("eq " + ta + " " + s(sc.Ty))
+		g.Emit("asg " + ta + " " + s(sc.Ty))
+		g.Emit("asg " + s(sc.Ty) + " " + ta)
+		g.Emit("asg " + ta + " " + s(lg.Narrow(sc.Ty)))
+		g.Emit("asg " + s(lg.Widen(sc.Ty)) + " " + ta)
+		o := spells[(i*7+3)%len(spells)]
+		g.Emit("asg " + ta + " " + lat.Txt(o.Text).String())
+		g.Emit("trans " + s(lg.Widen(sc.Ty)) + " " + ta + " " + s(lg.Narrow(sc.Ty)))
+	}
+
 	// ---- (3) malformed stream (implementation only) ----------------------------------------------------------------
 	odd := []string{"(int 2 1)", "(strsz 3 1)", "(arr any 5 2)", "(var str)", "(struct (x f str))", "(obj 3)", "(enum t x41)", "(tup (str) (2 1))"}
 	for i := 0; i < 200; i++ {
